@@ -114,6 +114,13 @@ def hermitianIO (j : Json) : Except String Json := do
               ("hc_one", J.ofList J.ofGQ (Model.C02.hcOneBody n one)),
               ("hc_two", J.ofList J.ofGQ (Model.C02.hcTwoBody n two))])
 
+def hermitianMatrix (j : Json) : Except String Json := do
+  let n ← J.nat (← J.field j "n")
+  let m ← J.listOf J.gq (← J.field j "m")
+  let tol ← tolOf j "tol"
+  .ok (J.obj [("model", Json.bool (Model.C02.isHermitianMatrix tol n m)),
+              ("hc", J.ofList J.ofGQ (Model.C02.hcMatrix n m))])
+
 def handle (op : String) (j : Json) : Option (Except String Json) :=
   match op with
   | "c02.isclose" => some (isclose j)
@@ -123,6 +130,7 @@ def handle (op : String) (j : Json) : Option (Except String Json) :=
   | "c02.tensoreq" => some (tensoreq j)
   | "c02.hermitian" => some (hermitian j)
   | "c02.hermitian_io" => some (hermitianIO j)
+  | "c02.hermitian_matrix" => some (hermitianMatrix j)
   | _ => none
 
 end C02
